@@ -510,10 +510,22 @@ func (p *Parser) atKeywordOperand() bool {
 	return false
 }
 
-// skipWhitespace advances past PDF whitespace characters.
+// skipWhitespace advances past PDF whitespace characters and comments
+// (a '%' outside a string starts a comment that runs to the end of the line).
 func (p *Parser) skipWhitespace() {
-	for p.pos < len(p.data) && isWhitespace(p.data[p.pos]) {
-		p.pos++
+	for p.pos < len(p.data) {
+		c := p.data[p.pos]
+		if isWhitespace(c) {
+			p.pos++
+			continue
+		}
+		if c == '%' {
+			for p.pos < len(p.data) && p.data[p.pos] != '\n' && p.data[p.pos] != '\r' {
+				p.pos++
+			}
+			continue
+		}
+		break
 	}
 }
 
